@@ -1111,6 +1111,10 @@ type rtJob struct {
 	k          int
 	lacks      string // "", "value-type", "definition": what the excluded imports take away
 	countUnres bool
+	// Part B5 hooks (partb5.go): the file as buf wrote it / the image as buf read it back
+	part        string
+	inspect     func(path string, fail func(class, what string))
+	inspectBack func(back bufimage.Image, fail func(class, what string))
 }
 
 type rtResult struct {
@@ -1141,13 +1145,17 @@ func (e *b3Env) start() {
 func (e *b3Env) finish() {
 	e.wg.Wait()
 	if os.Getenv("C11_TIMING") != "" {
-		fmt.Fprintf(os.Stderr, "B3 round trips: %d jobs, done %v after start\n", len(e.jobs), time.Since(e.t0))
+		fmt.Fprintf(os.Stderr, "%s round trips: %d jobs, done %v after start\n", strings.ToUpper(filepath.Base(e.root)), len(e.jobs), time.Since(e.t0))
 	}
 	for i, j := range e.jobs {
+		part := j.part
+		if part == "" {
+			part = "B3"
+		}
 		e.run.Eval()
-		e.run.Count("B3:roundtrip=" + j.enc.format + j.enc.comp)
-		e.run.Count("B3:flags=" + j.fl.name)
-		e.run.Distinct(fmt.Sprintf("B3:%s:%s%s:%s", j.tag, j.enc.ext, j.enc.suffix, j.fl.name))
+		e.run.Count(part + ":roundtrip=" + j.enc.format + j.enc.comp)
+		e.run.Count(part + ":flags=" + j.fl.name)
+		e.run.Distinct(fmt.Sprintf("%s:%s:%s%s:%s", part, j.tag, j.enc.ext, j.enc.suffix, j.fl.name))
 		for _, c := range e.out[i].counts {
 			e.run.Count(c)
 		}
@@ -1184,6 +1192,9 @@ func (e *b3Env) roundTrip(j rtJob) (res rtResult) {
 		fail("C11-roundtrip-write-error", fmt.Sprintf("%s %s: %v", enc.ext+enc.suffix, fl.name, err))
 		return
 	}
+	if j.inspect != nil {
+		j.inspect(f1, fail)
+	}
 	// the image that was written must not have been changed by writing it
 	if d := diffImages(j.pristine, protoFiles(img)); d != "" {
 		fail("C11-roundtrip-source-image-mutated", fmt.Sprintf("[%s] the in-memory image changed while it was written as %s: %s", j.tag, enc.ext+enc.suffix, d))
@@ -1192,6 +1203,9 @@ func (e *b3Env) roundTrip(j rtJob) (res rtResult) {
 	if err != nil {
 		fail("C11-roundtrip-read-error", fmt.Sprintf("[%s] %s %s: %s", j.tag, enc.ext+enc.suffix, fl.name, firstLines(err.Error(), 3)))
 		return
+	}
+	if j.inspectBack != nil {
+		j.inspectBack(back, fail)
 	}
 	got := protoFiles(back)
 	if fl.fds {
